@@ -179,9 +179,9 @@ def parseStmt (isJet : List Char → Bool) : List Tok → Option (Stmt × List T
   | .sym name :: .assign :: ts =>
     match parseExpr isJet ts with
     | some (e, .colon :: ts1) =>
-      match parseTy (tyFuel ts1) maxDepth ts1 with
+      match parseType ts1 with
       | some (a, .arrow :: ts2) =>
-        match parseTy (tyFuel ts2) maxDepth ts2 with
+        match parseType ts2 with
         | some (b, ts3) => some (⟨name, e, a, b⟩, ts3)
         | none => none
       | _ => none
